@@ -370,19 +370,24 @@ func specs() []spec {
 		{name: "farm-two-denoms-gov", mk: farmdrv.New(farmTwo), rt: mc.RoundTripSpec{Modules: []string{"coinswap", "farm"}, Query: merge(qCoinswap, qFarm), Gov: govFarm}, q: 4, t: 5},
 		{name: "farm-big-stake", mk: farmdrv.New(farmBig), rt: mc.RoundTripSpec{Modules: []string{"coinswap", "farm"}, Query: merge(qCoinswap, qFarm)}, q: 4, t: 6},
 		{name: "htlc-plain", mk: htlcdrv.New(htlcdrv.Variant{Name: "plain", Mode: "C12"}), rt: mc.RoundTripSpec{Modules: []string{"htlc"}, IDs: idsHTLC, Query: qHTLC,
-			Prep: func(e *mc.Env, ctx sdk.Context) { htlc.PrepForZeroHeightGenesis(ctx, e.HTLC) }}, q: 4, t: 6},
+			ZeroHeightKeeps: map[string][]string{"htlc": {"/htlcs[]", "/supplies[]"}},
+			Prep:            func(e *mc.Env, ctx sdk.Context) { htlc.PrepForZeroHeightGenesis(ctx, e.HTLC) }}, q: 4, t: 6},
 		{name: "htlc-cross-chain", mk: htlcdrv.New(htlcdrv.Variant{Name: "cross-chain", Mode: "C12", Cross: true}), rt: mc.RoundTripSpec{Modules: []string{"htlc"}, IDs: idsHTLC, Query: qHTLC, Gov: govHTLC,
-			Prep: func(e *mc.Env, ctx sdk.Context) { htlc.PrepForZeroHeightGenesis(ctx, e.HTLC) }}, q: 4, t: 5},
+			ZeroHeightKeeps: map[string][]string{"htlc": {"/htlcs[]", "/supplies[]"}},
+			Prep:            func(e *mc.Env, ctx sdk.Context) { htlc.PrepForZeroHeightGenesis(ctx, e.HTLC) }}, q: 4, t: 5},
 		{name: "token", mk: c09.New(c09v), rt: mc.RoundTripSpec{Modules: []string{"token"}, Query: qToken, Gov: govToken}, q: 4, t: 5},
 		{name: "nft", mk: c14.New(c14.Variants()[1]), rt: mc.RoundTripSpec{Modules: []string{"nft"}, Query: qNFT}, q: 3, t: 4},
 		{name: "mt-ledger", mk: c15.New(c15.Variants()[0]), rt: mc.RoundTripSpec{Modules: []string{"mt"}, Query: qMT, UnorderedArrays: map[string]bool{"mt": true}}, q: 3, t: 4},
 		{name: "mt-classes", mk: c15.New(c15.Variants()[1]), rt: mc.RoundTripSpec{Modules: []string{"mt"}, Query: qMT, UnorderedArrays: map[string]bool{"mt": true}}, q: 4, t: 5},
 		{name: "service", mk: svcdrv.New(svcdrv.Variant{Name: "fees", Mode: "C12", Tmpl: []string{"one", "rep"}, Withdraw: true}),
 			rt: mc.RoundTripSpec{Modules: []string{"service"}, IDs: idsService, Query: qService, Gov: govService,
-				Prep: func(e *mc.Env, ctx sdk.Context) { service.PrepForZeroHeightGenesis(ctx, e.Service) }}, q: 4, t: 6, txSeq: true},
+				ZeroHeightKeeps: map[string][]string{"service": {"/definitions[]", "/bindings[]", "/request_contexts/*"}},
+				Prep:            func(e *mc.Env, ctx sdk.Context) { service.PrepForZeroHeightGenesis(ctx, e.Service) }}, q: 4, t: 6, txSeq: true},
 		{name: "random", mk: c18.New(c18.QueueVariant()), rt: mc.RoundTripSpec{Modules: []string{"random"}, Query: qRandom,
-			Prep: func(e *mc.Env, ctx sdk.Context) { random.PrepForZeroHeightGenesis(ctx, e.Random) }}, q: 4, t: 5, txSeq: true},
+			ZeroHeightKeeps: map[string][]string{"random": {"/pending_random_requests/*/requests[]"}},
+			Prep:            func(e *mc.Env, ctx sdk.Context) { random.PrepForZeroHeightGenesis(ctx, e.Random) }}, q: 4, t: 5, txSeq: true},
 		{name: "oracle-history", mk: c17.New(c17h), rt: mc.RoundTripSpec{Modules: []string{"service", "oracle"}, IDs: idsService, Query: merge(qService, qOracle),
+			ZeroHeightKeeps: map[string][]string{"oracle": {"/entries[]", "/entries[]/values[]"}, "service": {"/definitions[]", "/bindings[]", "/request_contexts/*"}},
 			Prep: func(e *mc.Env, ctx sdk.Context) {
 				service.PrepForZeroHeightGenesis(ctx, e.Service)
 				oracle.PrepForZeroHeightGenesis(ctx, e.Oracle)
